@@ -99,6 +99,12 @@ def obligations(tier, rng):
         N = max(4, h + 2)
         P = '1/2' if (refsem.has(f, set(FR_UNT)) and rng.random() < 0.4) else '1'
         out.append(ob('C19', 'grid', 'F2/%s/P=%s/N=%d' % (text(f), P, N), f=f, N=N, P=P, max_paths=40000, wall=1200))
+    # wider windows (several samples per window)
+    for k in FR_UNT:
+        for a, b in [(0, 3), (1, 4)]:
+            f = (k, X, a, b)
+            N = 6 if quick else 7
+            out.append(ob('C19', 'grid', 'wide/%s/P=1/N=%d' % (text(f), N), f=f, N=N, P='1', max_paths=60000, wall=(300 if quick else 1500)))
     # nestings of the unbounded past operators (they share visitor fields in the dense-time monitor)
     for k1 in ('once', 'historically'):
         for k2 in ('once', 'historically'):
